@@ -18,17 +18,35 @@
 //	       (no else, no return inside), a final `return e`; e ::= literal | variable | (e) | e (+|-|*|/|%) e with a
 //	       non-zero literal divisor; cond ::= e (<|<=|>|>=|==|!=) e
 //
+// Session 4 (files eval.go kinds.go zfunc.go sel.go tables.go of this directory; bin/check rebuilds the binary when
+// THIS file is newer than it, so `touch main.go` after editing any of them):
+//
+//	int       also: iota and implicit repetition inside const blocks, conversions to integer types defined in the
+//	          file, unary minus, & | ^, character literals, math.MaxUint64 & co
+//	enum      every constant of a named integer type of the file, in source order  ->  list Z
+//	varfield  Var.Key: integer value of Key in the composite literal initialising the package-level Var
+//	casestr   Func:Label:Key: string value of Key in the composite literal of the case clause Label of Func
+//	caselits  Func:K: the integer / character labels of the K-th case clause of Func  ->  list Z
+//	hexstr    a string constant holding a 0x number
+//	localbits Func:var: width of the unsigned type of `var v T` inside Func
+//	felt      felt.Zero | felt.One | felt.FromUint64[felt.Felt](n) | another such variable;  feltlist: [...]felt.Felt{..}
+//	keylayout func F(params) []byte { [b := uint64ToBytes(p)]*; return Bucket.Key(parts..) } of db/schema.go
+//	          ->  (bucket byte, [(kind, parameter index)]), kind 0 raw / 1 felt.Marshal / 2 uint64 big endian
+//	zfunc     whole functions, statement runs and single expressions translated to Gallina over Z (see zfunc.go)
+//
+// Every emitted definition carries file:line of its source. An identifier that is missing or whose definition leaves
+// the subset makes the translator print `genconsts: <coq name> (<identifier> in <file>): <reason>`, leave the
+// definition out (so that every obligation mentioning it stops compiling) and exit with status 3.
+//
 // usage: genconsts <repo> <out.v>
 package main
 
 import (
 	"fmt"
 	"go/ast"
-	"go/parser"
 	"go/token"
 	"math/big"
 	"os"
-	"path/filepath"
 	"sort"
 	"strconv"
 	"strings"
@@ -38,141 +56,45 @@ type spec struct {
 	coq   string // name of the Coq definition
 	file  string // path relative to the repository root
 	ident string
-	kind  string // int | str | field
+	kind  string // int | str | fnstr | field | bits | func | enum | varfield | casestr | caselits | hexstr | localbits | felt | feltlist | keylayout
+	ext   map[string]extConst
+}
+
+var repoRoot string
+
+func sp(coq, file, ident, kind string) spec {
+	return spec{coq: coq, file: file, ident: ident, kind: kind}
 }
 
 var specs = []spec{
-	{"core_NumBlocksPerFilter", "core/aggregated_bloom_filter.go", "NumBlocksPerFilter", "int"},
-	{"core_BlockHashLag", "core/block.go", "BlockHashLag", "int"},
-	{"core_commitmentTrieHeight", "core/transaction.go", "commitmentTrieHeight", "int"},
-	{"deprecatedstate_globalTrieHeight", "core/deprecatedstate/state.go", "globalTrieHeight", "int"},
-	{"deprecatedstate_ContractStorageTrieHeight", "core/deprecatedstate/contract.go", "ContractStorageTrieHeight", "int"},
-	{"trie2_contractClassTrieHeight", "core/trie2/trie.go", "contractClassTrieHeight", "int"},
-	{"walstore_cleanupPruneRecordInterval", "consensus/walstore/wal_store.go", "cleanupPruneRecordInterval", "int"},
-	{"migration_maxMigrations", "migration/registry.go", "maxMigrations", "int"},
-	{"blocktransactions_batchSize", "migration/blocktransactions/blocktransactions.go", "batchSize", "int"},
-	{"jsonrpc_bufferSize", "jsonrpc/server.go", "bufferSize", "int"},
-	{"encoder_MaxArrayElements", "encoder/encoder.go", "MaxArrayElements", "field"},
-	{"encoder_MaxMapPairs", "encoder/encoder.go", "MaxMapPairs", "field"},
-	{"core_invokeFelt", "core/transaction.go", "invokeFelt", "str"},
-	{"core_declareFelt", "core/transaction.go", "declareFelt", "str"},
-	{"core_l1HandlerFelt", "core/transaction.go", "l1HandlerFelt", "str"},
-	{"core_deployAccountFelt", "core/transaction.go", "deployAccountFelt", "str"},
-	{"core_starknetBlockHash0", "core/block.go", "starknetBlockHash0", "str"},
-	{"core_starknetBlockHash1", "core/block.go", "starknetBlockHash1", "str"},
-	{"core_starknetGasPrices0", "core/block.go", "starknetGasPrices0", "str"},
-	{"core_starknetStateDiff0", "core/state_update.go", "starknetStateDiff0", "str"},
-	{"deprecatedstate_stateVersion", "core/deprecatedstate/state.go", "stateVersion", "str"},
-	{"deprecatedstate_leafVersion", "core/deprecatedstate/state.go", "leafVersion", "str"},
-	{"state_stateVersion0", "core/state/state.go", "stateVersion0", "str"},
-	{"state_leafVersion0", "core/state/state.go", "leafVersion0", "str"},
-	{"core_contractClassVersionPrefix", "core/class.go", "SierraClass.Hash", "fnstr"},
-	{"types_VotingPower_bits", "consensus/types/state.go", "VotingPower", "bits"},
-	{"votecounter_f", "consensus/votecounter/vote_counter.go", "f", "func"},
-	{"votecounter_q", "consensus/votecounter/vote_counter.go", "q", "func"},
-}
-
-type fileInfo struct {
-	f    *ast.File
-	vals map[string]ast.Expr // NAME -> initialiser of package-level const/var declarations
-	iota map[string]int
-}
-
-var files = map[string]*fileInfo{}
-
-func load(repo, rel string) (*fileInfo, error) {
-	if fi, ok := files[rel]; ok {
-		return fi, nil
-	}
-	fset := token.NewFileSet()
-	f, err := parser.ParseFile(fset, filepath.Join(repo, rel), nil, 0)
-	if err != nil {
-		return nil, err
-	}
-	fi := &fileInfo{f: f, vals: map[string]ast.Expr{}, iota: map[string]int{}}
-	for _, d := range f.Decls {
-		gd, ok := d.(*ast.GenDecl)
-		if !ok || (gd.Tok != token.CONST && gd.Tok != token.VAR) {
-			continue
-		}
-		for i, s := range gd.Specs {
-			vs := s.(*ast.ValueSpec)
-			for k, n := range vs.Names {
-				if k < len(vs.Values) {
-					fi.vals[n.Name] = vs.Values[k]
-					fi.iota[n.Name] = i
-				}
-			}
-		}
-	}
-	files[rel] = fi
-	return fi, nil
-}
-
-func evalInt(fi *fileInfo, e ast.Expr, depth int) (*big.Int, error) {
-	if depth > 20 {
-		return nil, fmt.Errorf("constant expression too deep")
-	}
-	switch x := e.(type) {
-	case *ast.BasicLit:
-		if x.Kind != token.INT {
-			return nil, fmt.Errorf("literal %s is not an integer", x.Value)
-		}
-		v, ok := new(big.Int).SetString(strings.ReplaceAll(x.Value, "_", ""), 0)
-		if !ok {
-			return nil, fmt.Errorf("cannot read integer literal %s", x.Value)
-		}
-		return v, nil
-	case *ast.ParenExpr:
-		return evalInt(fi, x.X, depth+1)
-	case *ast.Ident:
-		if init, ok := fi.vals[x.Name]; ok {
-			return evalInt(fi, init, depth+1)
-		}
-		return nil, fmt.Errorf("identifier %s is not a constant of the same file", x.Name)
-	case *ast.CallExpr: // conversion T(expr) with a builtin integer type
-		if id, ok := x.Fun.(*ast.Ident); ok && len(x.Args) == 1 {
-			switch id.Name {
-			case "uint64", "int", "uint", "int64", "uint32", "int32", "uint8", "uint16":
-				return evalInt(fi, x.Args[0], depth+1)
-			}
-		}
-		return nil, fmt.Errorf("call expression outside the translator's subset")
-	case *ast.BinaryExpr:
-		a, err := evalInt(fi, x.X, depth+1)
-		if err != nil {
-			return nil, err
-		}
-		b, err := evalInt(fi, x.Y, depth+1)
-		if err != nil {
-			return nil, err
-		}
-		r := new(big.Int)
-		switch x.Op {
-		case token.ADD:
-			return r.Add(a, b), nil
-		case token.SUB:
-			return r.Sub(a, b), nil
-		case token.MUL:
-			return r.Mul(a, b), nil
-		case token.QUO:
-			if b.Sign() == 0 {
-				return nil, fmt.Errorf("division by zero")
-			}
-			return r.Quo(a, b), nil
-		case token.REM:
-			if b.Sign() == 0 {
-				return nil, fmt.Errorf("division by zero")
-			}
-			return r.Rem(a, b), nil
-		case token.SHL:
-			return r.Lsh(a, uint(b.Uint64())), nil
-		case token.SHR:
-			return r.Rsh(a, uint(b.Uint64())), nil
-		}
-		return nil, fmt.Errorf("operator %s outside the translator's subset", x.Op)
-	}
-	return nil, fmt.Errorf("expression %T outside the translator's subset", e)
+	sp("core_NumBlocksPerFilter", "core/aggregated_bloom_filter.go", "NumBlocksPerFilter", "int"),
+	sp("core_BlockHashLag", "core/block.go", "BlockHashLag", "int"),
+	sp("core_commitmentTrieHeight", "core/transaction.go", "commitmentTrieHeight", "int"),
+	sp("deprecatedstate_globalTrieHeight", "core/deprecatedstate/state.go", "globalTrieHeight", "int"),
+	sp("deprecatedstate_ContractStorageTrieHeight", "core/deprecatedstate/contract.go", "ContractStorageTrieHeight", "int"),
+	sp("trie2_contractClassTrieHeight", "core/trie2/trie.go", "contractClassTrieHeight", "int"),
+	sp("walstore_cleanupPruneRecordInterval", "consensus/walstore/wal_store.go", "cleanupPruneRecordInterval", "int"),
+	sp("migration_maxMigrations", "migration/registry.go", "maxMigrations", "int"),
+	sp("blocktransactions_batchSize", "migration/blocktransactions/blocktransactions.go", "batchSize", "int"),
+	sp("jsonrpc_bufferSize", "jsonrpc/server.go", "bufferSize", "int"),
+	sp("encoder_MaxArrayElements", "encoder/encoder.go", "MaxArrayElements", "field"),
+	sp("encoder_MaxMapPairs", "encoder/encoder.go", "MaxMapPairs", "field"),
+	sp("core_invokeFelt", "core/transaction.go", "invokeFelt", "str"),
+	sp("core_declareFelt", "core/transaction.go", "declareFelt", "str"),
+	sp("core_l1HandlerFelt", "core/transaction.go", "l1HandlerFelt", "str"),
+	sp("core_deployAccountFelt", "core/transaction.go", "deployAccountFelt", "str"),
+	sp("core_starknetBlockHash0", "core/block.go", "starknetBlockHash0", "str"),
+	sp("core_starknetBlockHash1", "core/block.go", "starknetBlockHash1", "str"),
+	sp("core_starknetGasPrices0", "core/block.go", "starknetGasPrices0", "str"),
+	sp("core_starknetStateDiff0", "core/state_update.go", "starknetStateDiff0", "str"),
+	sp("deprecatedstate_stateVersion", "core/deprecatedstate/state.go", "stateVersion", "str"),
+	sp("deprecatedstate_leafVersion", "core/deprecatedstate/state.go", "leafVersion", "str"),
+	sp("state_stateVersion0", "core/state/state.go", "stateVersion0", "str"),
+	sp("state_leafVersion0", "core/state/state.go", "leafVersion0", "str"),
+	sp("core_contractClassVersionPrefix", "core/class.go", "SierraClass.Hash", "fnstr"),
+	sp("types_VotingPower_bits", "consensus/types/state.go", "VotingPower", "bits"),
+	sp("votecounter_f", "consensus/votecounter/vote_counter.go", "f", "func"),
+	sp("votecounter_q", "consensus/votecounter/vote_counter.go", "q", "func"),
 }
 
 func stringLits(e ast.Node) []string {
@@ -195,11 +117,94 @@ func value(repo string, s spec) (*big.Int, string, error) {
 	}
 	switch s.kind {
 	case "int":
-		init, ok := fi.vals[s.ident]
+		d, ok := fi.decls[s.ident]
 		if !ok {
 			return nil, "", fmt.Errorf("no package-level const/var %s with an initialiser", s.ident)
 		}
-		v, err := evalInt(fi, init, 0)
+		v, err := evalIntI(fi, d.expr, 0, d.iota)
+		return v, "", err
+	case "varfield": // Var.Key: integer value of Key in the composite literal that initialises the package-level Var
+		vn, key, ok := strings.Cut(s.ident, ".")
+		if !ok {
+			return nil, "", fmt.Errorf("want Var.Key")
+		}
+		cl, err := compositeOfVar(fi, vn)
+		if err != nil {
+			return nil, "", err
+		}
+		e, err := keyOf(cl, key)
+		if err != nil {
+			return nil, "", err
+		}
+		if sel, ok := e.(*ast.SelectorExpr); ok { // a constant of another package, declared in the spec
+			if ec, ok := s.ext[exprString(sel)]; ok {
+				fi2, err := load(repoRoot, ec.file)
+				if err != nil {
+					return nil, "", err
+				}
+				d, ok := fi2.decls[ec.ident]
+				if !ok {
+					return nil, "", fmt.Errorf("no constant %s in %s", ec.ident, ec.file)
+				}
+				v, err := evalIntI(fi2, d.expr, 0, d.iota)
+				return v, "", err
+			}
+		}
+		v, err := evalInt(fi, e, 0)
+		return v, "", err
+	case "casestr": // Func:Label:Key: the string value of Key in the only composite literal of the case clause Label of Func
+		p := strings.Split(s.ident, ":")
+		if len(p) != 3 {
+			return nil, "", fmt.Errorf("want Func:Label:Key")
+		}
+		cc, err := caseClause(fi, p[0], p[1])
+		if err != nil {
+			return nil, "", err
+		}
+		var cls []*ast.CompositeLit
+		for _, st := range cc.Body {
+			ast.Inspect(st, func(n ast.Node) bool {
+				if c, ok := n.(*ast.CompositeLit); ok {
+					cls = append(cls, c)
+				}
+				return true
+			})
+		}
+		if len(cls) != 1 {
+			return nil, "", fmt.Errorf("case %s of %s holds %d composite literals, want exactly 1", p[1], p[0], len(cls))
+		}
+		e, err := keyOf(cls[0], p[2])
+		if err != nil {
+			return nil, "", err
+		}
+		str, err := constString(e)
+		if err != nil {
+			return nil, "", err
+		}
+		return new(big.Int).SetBytes([]byte(str)), str, nil
+	case "hexstr": // a string constant holding a 0x.. number
+		d, ok := fi.decls[s.ident]
+		if !ok {
+			return nil, "", fmt.Errorf("no package-level const/var %s with an initialiser", s.ident)
+		}
+		str, err := constString(d.expr)
+		if err != nil {
+			return nil, "", err
+		}
+		v, ok := new(big.Int).SetString(str, 0)
+		if !ok || !strings.HasPrefix(str, "0x") {
+			return nil, "", fmt.Errorf("%q is not a 0x number", str)
+		}
+		return v, str, nil
+	case "localbits": // Func:var
+		fn, vn, ok := strings.Cut(s.ident, ":")
+		if !ok {
+			return nil, "", fmt.Errorf("want Func:var")
+		}
+		v, _, err := widthOfLocal(fi, fn, vn)
+		return v, "", err
+	case "felt":
+		v, _, err := feltValue(fi, s.ident, 0)
 		return v, "", err
 	case "str":
 		init, ok := fi.vals[s.ident]
@@ -275,7 +280,6 @@ func value(repo string, s spec) (*big.Int, string, error) {
 	}
 	return nil, "", fmt.Errorf("unknown kind %s", s.kind)
 }
-
 
 // ---------- function translator (kind "func") ----------
 const w64 = "18446744073709551616"
@@ -510,30 +514,115 @@ func typeBits(repo string, s spec) (*big.Int, error) {
 	return res, nil
 }
 
+// whereOf: file:line of the source of a scalar spec (after its value has been computed)
+func whereOf(s spec) string {
+	fi, err := load(repoRoot, s.file)
+	if err != nil {
+		return s.file
+	}
+	line := 0
+	switch s.kind {
+	case "int", "str", "hexstr", "felt":
+		if d, ok := fi.decls[s.ident]; ok {
+			line = fi.line(d.pos)
+		}
+	case "varfield":
+		vn, _, _ := strings.Cut(s.ident, ".")
+		if d, ok := fi.decls[vn]; ok {
+			line = fi.line(d.pos)
+		}
+	case "fnstr", "func":
+		if fd, err := findFunc(fi, s.ident); err == nil {
+			return fi.where(fd)
+		}
+	case "casestr":
+		p := strings.Split(s.ident, ":")
+		if cc, err := caseClause(fi, p[0], p[1]); err == nil {
+			return fi.where(cc)
+		}
+	case "localbits":
+		fn, vn, _ := strings.Cut(s.ident, ":")
+		if _, n, err := widthOfLocal(fi, fn, vn); err == nil {
+			return fi.where(n)
+		}
+	case "field":
+		ast.Inspect(fi.f, func(n ast.Node) bool {
+			if kv, ok := n.(*ast.KeyValueExpr); ok && line == 0 {
+				if id, ok := kv.Key.(*ast.Ident); ok && id.Name == s.ident {
+					line = fi.line(kv.Pos())
+				}
+			}
+			return true
+		})
+	case "bits":
+		ast.Inspect(fi.f, func(n ast.Node) bool {
+			if ts, ok := n.(*ast.TypeSpec); ok && ts.Name.Name == s.ident {
+				line = fi.line(ts.Pos())
+			}
+			return true
+		})
+	}
+	if line == 0 {
+		return s.file
+	}
+	return fmt.Sprintf("%s:%d", s.file, line)
+}
+
+const prelude = `
+(* ---- definitions over Z (kind zfunc, enumerations, key layouts) ---- *)
+Local Open Scope Z_scope.
+(* two's-complement wrap of a signed type of 2^w = m values *)
+Definition wrap_s (m x : Z) : Z := (x + m / 2) mod m - m / 2.
+(* x[i] = v on a slice; an index out of range panics in Go (not modelled: the list is returned unchanged) *)
+Fixpoint go_set_nat (l : list Z) (n : nat) (v : Z) : list Z :=
+  match l, n with
+  | [], _ => []
+  | _ :: r, O => v :: r
+  | a :: r, S n' => a :: go_set_nat r n' v
+  end.
+Definition go_set (l : list Z) (i v : Z) : list Z := go_set_nat l (Z.to_nat i) v.
+(* the slice dst after copy(dst, src): min(len dst, len src) elements are overwritten *)
+Definition go_copy (dst src : list Z) : list Z :=
+  let n := Nat.min (List.length dst) (List.length src) in List.firstn n src ++ List.skipn n dst.
+(* a decision procedure for "pairwise different", for the obligations about enumerations *)
+Fixpoint z_nodupb (l : list Z) : bool :=
+  match l with [] => true | x :: r => negb (existsb (Z.eqb x) r) && z_nodupb r end.
+Lemma z_nodupb_sound : forall l, z_nodupb l = true -> NoDup l.
+Proof.
+  induction l as [|x r IH]; intro H; [constructor|]. cbn in H. apply andb_prop in H. destruct H as [H1 H2].
+  constructor; [|exact (IH H2)]. intro Hin. apply negb_true_iff in H1.
+  assert (existsb (Z.eqb x) r = true) by (apply existsb_exists; exists x; split; [exact Hin|apply Z.eqb_refl]).
+  congruence.
+Qed.
+
+`
+
+func fail(b *strings.Builder, failed *int, coq, ident, file string, err error) {
+	// keep the file compilable but make every obligation that mentions the name fail with a readable message
+	fmt.Fprintf(b, "(* TRANSLATOR ERROR %s (%s in %s): %s *)\n", coq, ident, file, strings.ReplaceAll(err.Error(), "*)", "* )"))
+	fmt.Fprintf(os.Stderr, "genconsts: %s (%s in %s): %v\n", coq, ident, file, err)
+	*failed++
+}
+
 func main() {
 	if len(os.Args) != 3 {
 		fmt.Fprintln(os.Stderr, "usage: genconsts <repo> <out.v>")
 		os.Exit(2)
 	}
 	repo, out := os.Args[1], os.Args[2]
+	repoRoot = repo
 	var b strings.Builder
 	b.WriteString("(* GENERATED by harness/cmd/genconsts from the Go sources of the repository under verification on every run.\n")
-	b.WriteString("   Do not edit. One definition per source constant the Coq models depend on; the obligations\n")
-	b.WriteString("   coq/obligations/Cxx_consts.v equate the models' hand-written constants with these. *)\n")
-	b.WriteString("From Coq Require Import ZArith NArith Bool.\nLocal Open Scope N_scope.\n\n")
-	sorted := append([]spec{}, specs...)
+	b.WriteString("   Do not edit. One definition per source constant / function the Coq models depend on; the obligations\n")
+	b.WriteString("   coq/obligations/Cxx_consts.v equate the models' hand-written definitions with these. *)\n")
+	b.WriteString("From Coq Require Import ZArith NArith Bool List.\nImport ListNotations.\nLocal Open Scope N_scope.\n\n")
+	all := append(append([]spec{}, specs...), specs2...)
+	sorted := append([]spec{}, all...)
 	sort.SliceStable(sorted, func(i, j int) bool { return sorted[i].coq < sorted[j].coq })
 	failed := 0
-	for _, s := range sorted {
-		if s.kind == "func" {
-			def, err := trFunc(repo, s)
-			if err != nil {
-				fmt.Fprintf(&b, "(* TRANSLATOR ERROR %s (%s in %s): %s *)\n", s.coq, s.ident, s.file, err)
-				fmt.Fprintf(os.Stderr, "genconsts: %s (%s in %s): %v\n", s.coq, s.ident, s.file, err)
-				failed++
-				continue
-			}
-			fmt.Fprintf(&b, "(* func %s in %s, unsigned 64-bit arithmetic written out *)\n%s\n", s.ident, s.file, def)
+	isList := map[string]bool{"enum": true, "caselits": true, "feltlist": true, "keylayout": true}
+	for _, s := range sorted { // 1. scalar constants
+		if s.kind == "func" || isList[s.kind] {
 			continue
 		}
 		var v *big.Int
@@ -545,17 +634,53 @@ func main() {
 			v, str, err = value(repo, s)
 		}
 		if err != nil {
-			// keep the file compilable but make every obligation that mentions the name fail with a readable message
-			fmt.Fprintf(&b, "(* TRANSLATOR ERROR %s (%s in %s): %s *)\n", s.coq, s.ident, s.file, err)
-			fmt.Fprintf(os.Stderr, "genconsts: %s (%s in %s): %v\n", s.coq, s.ident, s.file, err)
-			failed++
+			fail(&b, &failed, s.coq, s.ident, s.file, err)
 			continue
 		}
-		note := fmt.Sprintf("%s in %s", s.ident, s.file)
+		note := fmt.Sprintf("%s %s in %s", whereOf(s), s.ident, s.file)
 		if str != "" {
 			note += fmt.Sprintf(", bytes of %q", str)
 		}
-		fmt.Fprintf(&b, "Definition %s : Z := %s%%Z.  (* %s *)\n", s.coq, v.String(), note)
+		if v.Sign() < 0 {
+			fmt.Fprintf(&b, "Definition %s : Z := (%s)%%Z.  (* %s *)\n", s.coq, v.String(), note)
+		} else {
+			fmt.Fprintf(&b, "Definition %s : Z := %s%%Z.  (* %s *)\n", s.coq, v.String(), note)
+		}
+	}
+	for _, s := range sorted { // 2. functions N -> N (kind func)
+		if s.kind != "func" {
+			continue
+		}
+		def, err := trFunc(repo, s)
+		if err != nil {
+			fail(&b, &failed, s.coq, s.ident, s.file, err)
+			continue
+		}
+		fmt.Fprintf(&b, "(* %s func %s in %s, unsigned 64-bit arithmetic written out *)\n%s\n", whereOf(s), s.ident, s.file, def)
+	}
+	b.WriteString(prelude)
+	for _, s := range sorted { // 3. lists
+		if !isList[s.kind] {
+			continue
+		}
+		def, err := listDef(s)
+		if err != nil {
+			fail(&b, &failed, s.coq, s.ident, s.file, err)
+			continue
+		}
+		b.WriteString(def)
+	}
+	b.WriteString("\n")
+	zs := append([]zspec{}, zspecs...)
+	sort.SliceStable(zs, func(i, j int) bool { return zs[i].coq < zs[j].coq })
+	for _, s := range zs { // 4. functions over Z
+		def, err := trZfunc(s)
+		if err != nil {
+			fail(&b, &failed, s.coq, s.ident+" "+s.sel, s.file, err)
+			continue
+		}
+		b.WriteString(def)
+		b.WriteString("\n")
 	}
 	if err := os.WriteFile(out, []byte(b.String()), 0o644); err != nil {
 		fmt.Fprintln(os.Stderr, err)
@@ -564,4 +689,84 @@ func main() {
 	if failed > 0 {
 		os.Exit(3)
 	}
+}
+
+// listDef: the list-valued kinds
+func listDef(s spec) (string, error) {
+	fi, err := load(repoRoot, s.file)
+	if err != nil {
+		return "", err
+	}
+	switch s.kind {
+	case "enum":
+		names, vals, where, err := enumValues(fi, s.ident)
+		if err != nil {
+			return "", err
+		}
+		return fmt.Sprintf("(* %s  every constant of type %s, in source order: %s *)\nDefinition %s : list Z := %s.\n",
+			where, s.ident, strings.Join(names, " "), s.coq, zlist(vals)), nil
+	case "caselits": // Func:K  the integer literals of the K-th case clause (source order) of Func that has any
+		fn, ks, ok := strings.Cut(s.ident, ":")
+		if !ok {
+			return "", fmt.Errorf("want Func:K")
+		}
+		k, err := atoi(ks)
+		if err != nil {
+			return "", err
+		}
+		fd, err := findFunc(fi, fn)
+		if err != nil {
+			return "", err
+		}
+		var ccs []*ast.CaseClause
+		ast.Inspect(fd.Body, func(n ast.Node) bool {
+			if cc, ok := n.(*ast.CaseClause); ok && len(cc.List) > 0 {
+				ccs = append(ccs, cc)
+			}
+			return true
+		})
+		cc, err := pick(ccs, k, "case clauses")
+		if err != nil {
+			return "", err
+		}
+		var vals []*big.Int
+		for _, e := range cc.List {
+			v, err := evalInt(fi, e, 0)
+			if err != nil {
+				return "", err
+			}
+			vals = append(vals, v)
+		}
+		return fmt.Sprintf("(* %s  labels of case clause %d of func %s *)\nDefinition %s : list Z := %s.\n", fi.where(cc), k, fn, s.coq, zlist(vals)), nil
+	case "feltlist":
+		init, ok := fi.vals[s.ident]
+		if !ok {
+			return "", fmt.Errorf("no package-level var %s with an initialiser", s.ident)
+		}
+		cl, ok := init.(*ast.CompositeLit)
+		if !ok {
+			return "", fmt.Errorf("initialiser of %s is not a composite literal", s.ident)
+		}
+		var vals []*big.Int
+		for _, e := range cl.Elts {
+			v, err := feltExpr(fi, e, 0)
+			if err != nil {
+				return "", err
+			}
+			vals = append(vals, v)
+		}
+		return fmt.Sprintf("(* %s  %s *)\nDefinition %s : list Z := %s.\n", fi.where(cl), s.ident, s.coq, zlist(vals)), nil
+	case "keylayout":
+		bv, parts, node, err := keyLayout(fi, s.ident)
+		if err != nil {
+			return "", err
+		}
+		var p []string
+		for _, x := range parts {
+			p = append(p, fmt.Sprintf("(%d, %d)", x[0], x[1]))
+		}
+		return fmt.Sprintf("(* %s  key layout of func %s: (bucket byte, parts); part = (kind, parameter index), kind 0 = raw bytes, 1 = felt.Marshal (32 bytes big endian), 2 = uint64 big endian (8 bytes) *)\nDefinition %s : Z * list (Z * Z) := (%s, [%s]).\n",
+			fi.where(node), s.ident, s.coq, bv.String(), strings.Join(p, "; ")), nil
+	}
+	return "", fmt.Errorf("unknown kind %s", s.kind)
 }
